@@ -563,3 +563,216 @@ func (e *Engine) runSpellPairs() {
 		pairsErr = fmt.Errorf("pairs harness stopped after %d of %d pairs: %v\n%s", pairsDone, pairsCount, err, truncate(string(outb), 2000))
 	}
 }
+
+// ---------------------------------------------------------------- bounded stand-in: fault injection (C12)
+//
+// Each fault class of property C12 is injected at each site of a base program where it can occur; the
+// real ParseFile runs on the text. The fault must produce at least one diagnostic carrying the line of
+// the offending declaration; the fault-free base programs must produce none.  Obligations are named
+// BOUNDED:C12:fault:<hash of the text>.
+
+type faultCase struct {
+	Label string
+	Text  string
+	Line  int // expected line of a diagnostic; 0 = no diagnostic expected
+}
+
+func faultCases() []faultCase {
+	var out []faultCase
+	base := []string{
+		"options {",                                // 1
+		"    LittleEndian = true;",                 // 2
+		"    StringPrefixLenType = u8;",            // 3
+		"}",                                        // 4
+		"MetaData Types {",                         // 5
+		"    u16 Code `a code`,",                   // 6
+		"    char[8] Name,",                        // 7
+		"}",                                        // 8
+		"root packet Msg {",                        // 9
+		"    u16 Len @lengthOf(Body),",             // 10
+		"    Code c,",                              // 11
+		"    Name n,",                              // 12
+		"    u8 Kind,",                             // 13
+		"    match Kind as Body {",                 // 14
+		"        1 : A,",                           // 15
+		"        [2, 3] : B,",                      // 16
+		"    },",                                   // 17
+		"    u32 Sum @calculatedFrom(\"crc\"),",    // 18
+		"}",                                        // 19
+		"packet A {",                               // 20
+		"    u8 a,",                                // 21
+		"    B inner,",                             // 22
+		"    In { u8 q, string t, },",              // 23
+		"}",                                        // 24
+		"packet B {",                               // 25
+		"    string s,",                            // 26
+		"    repeat u16 xs,",                       // 27
+		"}",                                        // 28
+	}
+	join := func(ls []string) string { return strings.Join(ls, "\n") + "\n" }
+	out = append(out, faultCase{"well-formed base", join(base), 0})
+	// replace line n (1-based) / insert after line n
+	repl := func(n int, l string) []string {
+		c := append([]string(nil), base...)
+		c[n-1] = l
+		return c
+	}
+	ins := func(n int, ls ...string) []string {
+		c := append([]string(nil), base[:n]...)
+		c = append(c, ls...)
+		return append(c, base[n:]...)
+	}
+	add := func(label string, ls []string, line int) { out = append(out, faultCase{label, join(ls), line}) }
+	add("duplicate packet", ins(28, "packet A {", "    u8 z,", "}"), 29)
+	add("duplicate packet (root name)", ins(28, "packet Msg {", "    u8 z,", "}"), 29)
+	add("duplicate MetaData entry", ins(7, "    u32 Code,"), 8)
+	add("duplicate MetaData entry in a second block", ins(8, "MetaData More {", "    string Name,", "}"), 10)
+	add("duplicate option", ins(3, "    LittleEndian = false;"), 4)
+	add("duplicate option in a second block", ins(4, "options {", "    StringPrefixLenType = u16;", "}"), 6)
+	add("duplicate field", ins(13, "    u8 Kind,"), 14)
+	add("duplicate field in another packet", ins(21, "    u16 a,"), 22)
+	add("duplicate field in an inline object", repl(23, "    In { u8 q, string q, },"), 23)
+	add("duplicate match key", ins(15, "        1 : B,"), 16)
+	add("duplicate match key inside a list", repl(16, "        [2, 1] : B,"), 16)
+	add("second root packet", repl(25, "root packet B {"), 25)
+	add("unknown option", ins(3, "    Bogus = 1;"), 4)
+	add("illegal option value", repl(2, "    LittleEndian = 5;"), 2)
+	add("illegal option value (string)", repl(2, "    LittleEndian = \"yes\";"), 2)
+	add("illegal prefix type", repl(3, "    StringPrefixLenType = i8;"), 3)
+	add("length-of outside the root packet", ins(26, "    u16 l @lengthOf(s),"), 27)
+	add("length-of outside the root packet (prefixed)", ins(26, "    @lengthOf(s) u16 l,"), 27)
+	add("length-of declared twice", ins(10, "    u16 Len2 @lengthOf(Body),"), 11)
+	add("undeclared packet in an object field", repl(22, "    Nope inner,"), 22)
+	add("undeclared packet in a repeated object field", ins(22, "    repeat Nope2 more,"), 23)
+	add("undeclared packet in an inline object", repl(23, "    In { u8 q, Nope3 x, },"), 23)
+	add("undeclared packet in a match pair", repl(15, "        1 : Nope4,"), 15)
+	add("undeclared packet in a key list pair", repl(16, "        [2, 3] : Nope5,"), 16)
+	add("undeclared match key field", repl(14, "    match NoKey as Body {"), 14)
+	add("undeclared length target", repl(10, "    u16 Len @lengthOf(Nothing),"), 10)
+	add("undeclared length target (prefixed)", repl(10, "    @lengthOf(Nothing) u16 Len,"), 10)
+	// further well-formed programs: documented constructs and option values must be accepted
+	out = append(out, faultCase{"well-formed: every option with each documented value", "options { LittleEndian = false; StringPrefixLenType = u32; ArrayPrefixLenType = u64; FixedStringPadFromLeft = true; FixedStringPadChar = '0'; JavaPackage = \"a.b\"; GoPackage = \"p\"; GoModule = \"m\"; }\nroot packet P { char[4] c, string s, repeat u8 xs, }\n", 0})
+	out = append(out, faultCase{"well-formed: alias spellings and NUL pad", "options { StringPrefixLenType = uint16; ArrayPrefixLenType = uint8; FixedStringPadChar = '\\x00'; }\nroot packet P { uint8 a, int64 b, float32 f, float64 g, char[] s, zchar[4] z, @leftPad(' ') char[3] p, }\n", 0})
+	out = append(out, faultCase{"well-formed: same field name in different packets", "root packet P { u8 x, Q q, }\npacket Q { u8 x, }\n", 0})
+	out = append(out, faultCase{"well-formed: same key in two match fields", "root packet P { u8 k, match k as b { 1 : Q, }, u8 j, match j as c { 1 : Q, }, }\npacket Q { u8 x, }\n", 0})
+	out = append(out, faultCase{"well-formed: forward reference", "root packet P { Q q, }\npacket Q { u8 x, }\n", 0})
+	out = append(out, faultCase{"well-formed: no root packet", "packet P { u8 x, }\n", 0})
+	return out
+}
+
+const faultHarness = `
+func TestGoverifFaults(t *testing.T) {
+	dir := os.Getenv("GOVERIF_FAULTS_DIR")
+	if dir == "" {
+		t.Skip()
+	}
+	files, _ := filepath.Glob(filepath.Join(dir, "*.dsl"))
+	sort.Strings(files)
+	out, _ := os.Create(filepath.Join(dir, "faults.jsonl"))
+	defer out.Close()
+	null, _ := os.OpenFile(os.DevNull, os.O_WRONLY, 0)
+	os.Stdout = null
+	for _, f := range files {
+		note := ""
+		func() {
+			defer func() {
+				if r := recover(); r != nil {
+					note = "panic: " + fmt.Sprint(r)
+				}
+			}()
+			res, err := ParseFile(f)
+			if err != nil {
+				note = "syntax: " + err.Error()
+				return
+			}
+			m, ok := res.(*model.BinaryModel)
+			if !ok {
+				note = "no model"
+				return
+			}
+			var ds []string
+			for _, e := range m.SyntaxErrors {
+				ds = append(ds, fmt.Sprintf("%d:%s", e.Line, e.Msg))
+			}
+			note = "diagnostics: " + strings.Join(ds, " | ")
+		}()
+		b, _ := json.Marshal(goverifStandin{filepath.Base(f), "fault", note})
+		out.Write(append(b, '\n'))
+	}
+}
+`
+
+var faultsRan bool
+var faultsFail map[string]map[string]interface{}
+var faultsCount, faultsDone int
+var faultsErr error
+
+func (e *Engine) runFaults() {
+	if faultsRan {
+		return
+	}
+	faultsRan = true
+	faultsFail = map[string]map[string]interface{}{}
+	dir, err := os.MkdirTemp("/var/tmp", "goverif-faults-")
+	if err != nil {
+		faultsErr = err
+		return
+	}
+	defer os.RemoveAll(dir)
+	cases := faultCases()
+	faultsCount = len(cases)
+	byFile := map[string]faultCase{}
+	for i, c := range cases {
+		n := fmt.Sprintf("f%04d.dsl", i)
+		byFile[n] = c
+		os.WriteFile(filepath.Join(dir, n), []byte(c.Text), 0644)
+	}
+	h := filepath.Join(dir, "zz_goverif_standin_test.go")
+	os.WriteFile(h, []byte(standinHarness+faultHarness), 0644)
+	ov := map[string]interface{}{"Replace": map[string]string{filepath.Join(repoRoot, "internal/parser/zz_goverif_standin_test.go"): h}}
+	ovb, _ := json.Marshal(ov)
+	ovf := filepath.Join(dir, "overlay.json")
+	os.WriteFile(ovf, ovb, 0644)
+	cmd := exec.Command("go", "test", "-overlay", ovf, "-vet=off", "-count=1", "-timeout", "300s", "-run", "^TestGoverifFaults$", "./internal/parser/")
+	cmd.Dir = repoRoot
+	cmd.Env = append(os.Environ(), "GOVERIF_FAULTS_DIR="+dir, "GOFLAGS=-mod=mod", "GOPROXY=off")
+	outb, err := cmd.CombinedOutput()
+	f, ferr := os.Open(filepath.Join(dir, "faults.jsonl"))
+	if ferr != nil {
+		faultsErr = fmt.Errorf("fault harness did not run: %v\n%s", err, truncate(string(outb), 2000))
+		return
+	}
+	defer f.Close()
+	sc := bufio.NewScanner(f)
+	sc.Buffer(make([]byte, 1<<20), 1<<24)
+	for sc.Scan() {
+		var o standinOutcome
+		if json.Unmarshal(sc.Bytes(), &o) != nil {
+			continue
+		}
+		faultsDone++
+		c := byFile[o.File]
+		ok := false
+		why := ""
+		switch {
+		case strings.HasPrefix(o.Note, "panic") || strings.HasPrefix(o.Note, "syntax") || o.Note == "no model":
+			why = o.Note
+		case c.Line == 0:
+			ok = o.Note == "diagnostics: "
+			why = "a well-formed text is rejected: " + o.Note
+		default:
+			for _, d := range strings.Split(strings.TrimPrefix(o.Note, "diagnostics: "), " | ") {
+				if strings.HasPrefix(d, fmt.Sprintf("%d:", c.Line)) {
+					ok = true
+				}
+			}
+			why = fmt.Sprintf("no diagnostic at line %d (%s)", c.Line, o.Note)
+		}
+		if !ok {
+			faultsFail[fmt.Sprintf("BOUNDED:C12:fault:%s", inputID(c.Text))] = map[string]interface{}{"fault": c.Label, "input": c.Text, "expected_line": c.Line, "observed": why}
+		}
+	}
+	if faultsDone != faultsCount {
+		faultsErr = fmt.Errorf("fault harness stopped after %d of %d cases: %v\n%s", faultsDone, faultsCount, err, truncate(string(outb), 2000))
+	}
+}
